@@ -153,6 +153,17 @@ def run_schedule(schedule):
                 if pending_drains:
                     k = ev[1] % len(pending_drains)
                     pending_drains.pop(k)[1].set_result(None)
+            elif ev[0] == "race":
+                # a drain completes and, n event-loop steps later -- while the sender is on its way to the next message --
+                # another message is queued
+                pending_drains[:] = [x for x in pending_drains if not x[1].done()]
+                if pending_drains:
+                    pending_drains.pop(0)[1].set_result(None)
+                for _ in range(ev[2]):
+                    await asyncio.sleep(0)
+                adapter.add_message_to_stream([str(ev[1]).encode()])
+                queued.append(ev[1])
+                actions.append(("queue", ev[1]))
             elif ev[0] == "wait":
                 # latency in (virtual) time, not only in scheduling steps: a peer that stops reading for a while
                 await asyncio.sleep(ev[1])
@@ -210,6 +221,23 @@ def gen_schedules(tier, rng):
     for pause in (0.5, 1.5, 5.0, 60.0):
         for nq in (1, 2, 4):
             out.append([("factory",)] + [("queue", i + 1) for i in range(nq)] + [("wait", pause), ("drain", 0), ("queue", 9), ("wait", pause), ("drain", 0)])
+    # a backlog: dozens of messages queued while the socket is not up yet (or the peer reads slowly), then the stream
+    # catches up one drain at a time while more messages keep coming
+    for nb in (20, 40, 70):
+        s = [("queue", i + 1) for i in range(nb)] + [("factory",)]
+        for j in range(nb + 6):
+            s += [("drain", 0)] + ([("queue", 500 + j)] if j % 2 == 0 else [])
+        out.append(s)
+        s = [("factory",), ("queue", 1), ("wait", 5.0)] + [("queue", i + 2) for i in range(nb)]
+        for j in range(nb + 6):
+            s += [("drain", 0), ("queue", 700 + j)] if j < 10 else [("drain", 0)]
+        out.append(s)
+    for nb in (20, 40):
+        for n in range(0, 8):
+            s = [("queue", i + 1) for i in range(nb)] + [("factory",)]
+            for j in range(nb + 8):
+                s += [("race", 900 + j, n)] if j < 12 else [("drain", 0)]
+            out.append(s)
     for _ in range({"quick": 300, "thorough": 6000}[tier]):
         s = []
         mid = [100]
